@@ -23,3 +23,5 @@ Definition c11_hmac := hmac_of.
 Definition c11_default_fudge := default_fudge.
 Definition c11_unsigned_error_rcode := unsigned_error_rcode.
 Definition c11_unsigned_error_response := unsigned_error_response.
+Definition c11_wrapper_validate := wrapper_validate hmac_of.
+Definition c11_from_message := from_message.
